@@ -69,6 +69,11 @@ CLAIMED = {
              "Unknown-token triage, conflict/required justification and suggestions are out of reach.",
         note="Covers Error::new/stream/use_stderr/exit_code and verify_num_args only.",
         ref="2 C10", technique=MIX),
+    "C11": dict(
+        text="PARTIAL (very thin). MIR->SMT path enumeration of Command::_build_self: on every feasible path where the Built flag is already set nothing else is called (a second build is a no-op), and every path "
+             "that does build sets the flag before returning (33 paths; inner loops cut). Determinism of parsing, the per-parse bin-name/usage mutation in try_get_matches_from_mut and the key cache are NOT decided.",
+        note="All callees opaque; paths through loop bodies are cut at the back edge (their zero-iteration exits are explored). Realised natively by building three times / re-parsing after a failed parse.",
+        ref="2 C11", technique="own MIR->SMT translation: call presence on paths, infeasibility of violating paths by z3 + cvc5, native replay"),
     "C12": dict(
         text="PARTIAL. Solver-decided (MIR->SMT, z3 + cvc5) absence of integer overflow/underflow in the help column arithmetic (align_to_about, subcmd, arg_next_line_help, subcommand_next_line_help, "
              "with longest_filter and Arg::is_positional inlined; the link between `longest` and the widths is derived from the MIR of write_args' loop body incl. a discharged monotonicity obligation), "
@@ -103,7 +108,6 @@ CLAIMED = {
 }
 
 NOT_APPLICABLE = {
-    "C11": "state that could leak is written by _build_self/_build_bin_names_internal which do not finish symbolic execution; needs repeated builds/parses",
     "C15": "proc-macro translation running inside rustc plus generated code over a built Command: neither reachable by Kani nor a loop-free scalar kernel for the MIR->SMT engine",
     "C16": "every generator starts with cmd.build(); 'accepted by bash' is a statement about an external interpreter",
     "C17": "escapers are chains of String::replace: one symbolic char through fish's two replaces exceeded 10 GB/10 min; SMT string theory gave unknown; call sites need a built command",
@@ -143,7 +147,7 @@ def main():
         "engines": [
             {"name": "kani", "path": "/verif/runner/kani.py", "serves_properties": sorted(p for p in CLAIMED if p != "C12"),
              "kind_free_text": "Kani 0.68/CBMC 6.11 harnesses (kani/lex external crate; harness/*.rs included into clap_builder under cfg clap_verif); counterexamples replayed natively via concrete playback"},
-            {"name": "mirsmt", "path": "/verif/runner/mir_check.py", "serves_properties": ["C01", "C02", "C03", "C04", "C05", "C06", "C09", "C10", "C12", "C18", "C20"],
+            {"name": "mirsmt", "path": "/verif/runner/mir_check.py", "serves_properties": ["C01", "C02", "C03", "C04", "C05", "C06", "C09", "C10", "C11", "C12", "C18", "C20"],
              "kind_free_text": "MIR (cargo +nightly rustc -Zunpretty=mir, overflow checks on) of loop-free scalar functions -> SMT-LIB2 bit-vector queries (mirsmt/*.py), decided by z3 and cvc5; candidates realised by a native #[test] in the harness module"},
         ],
         "checks": checks,
